@@ -4,8 +4,7 @@ import Dmn.Lemmas.Iter
 /-!
 # Lemmas about requirement graphs: non-interference
 
-`Sound g gr dp`: the registries `gr` read the input data only at the names `dp` lists, and
-write only the names `dp` lists.  `graphStep` preserves it (`sound_step`); hence it holds at
+`Sound g gr dp`: the registries `gr` read the input data only at the names `dp` lists.  `graphStep` preserves it (`sound_step`); hence it holds at
 every level (`sound_graphAt`).  The FEEL evaluator is a black box here: the logic is the
 same function applied to the same scope.
 -/
@@ -95,60 +94,6 @@ theorem foldCtx_congr (f f' : String → Ctx → Outcome Ctx) (ids : List String
     | panic p => rfl
     | diverge => rfl
 
-/-- What a loop of closures writes: every key of the result was there before or is one of the
-names its steps may write. -/
-theorem foldCtx_keys (f : String → Ctx → Outcome Ctx) (N : String → List String)
-    (hf : ∀ id c c', f id c = .ok c' → ∀ k ∈ Ctx.keys c', k ∈ Ctx.keys c ∨ k ∈ N id)
-    (ids : List String) (c c' : Ctx) (h : foldCtx f ids c = .ok c') :
-    ∀ k ∈ Ctx.keys c', k ∈ Ctx.keys c ∨ k ∈ ids.flatMap N := by
-  induction ids generalizing c with
-  | nil =>
-    simp only [foldCtx] at h
-    cases h
-    intro k hk
-    exact Or.inl hk
-  | cons id ids ih =>
-    simp only [foldCtx] at h
-    cases h1 : f id c with
-    | ok c1 =>
-      rw [h1] at h
-      intro k hk
-      rcases ih c1 h k hk with h2 | h2
-      · rcases hf id c c1 h1 k h2 with h3 | h3
-        · exact Or.inl h3
-        · exact Or.inr (List.mem_flatMap.mpr ⟨id, List.mem_cons_self, h3⟩)
-      · obtain ⟨x, hx, hk'⟩ := List.mem_flatMap.mp h2
-        exact Or.inr (List.mem_flatMap.mpr ⟨x, List.mem_cons_of_mem _ hx, hk'⟩)
-    | panic p => rw [h1] at h; cases h
-    | diverge => rw [h1] at h; cases h
-
-theorem serviceFns_keys (g : Drg) (ids : List String) (acc : Ctx) :
-    ∀ k ∈ Ctx.keys (g.serviceFns ids acc), k ∈ Ctx.keys acc ∨ k ∈ g.serviceVarNames ids := by
-  unfold serviceFns
-  induction ids generalizing acc with
-  | nil => intro k hk; exact Or.inl hk
-  | cons id ids ih =>
-    intro k hk
-    simp only [List.foldl_cons] at hk
-    have lift : ∀ k, k ∈ g.serviceVarNames ids → k ∈ g.serviceVarNames (id :: ids) := by
-      intro k hk
-      unfold serviceVarNames at hk ⊢
-      obtain ⟨x, hx, hk⟩ := List.mem_filterMap.mp hk
-      exact List.mem_filterMap.mpr ⟨x, List.mem_cons_of_mem _ hx, hk⟩
-    cases hf : g.findService id with
-    | none =>
-      rw [hf] at hk
-      rcases ih _ k hk with h | h
-      · exact Or.inl h
-      · exact Or.inr (lift k h)
-    | some s =>
-      rw [hf] at hk
-      rcases ih _ k hk with h | h
-      · rcases keys_set h with h | h
-        · exact Or.inr (h ▸ mem_serviceVarNames List.mem_cons_self hf)
-        · exact Or.inl h
-      · exact Or.inr (lift k h)
-
 theorem dropName_ok {o : Outcome (Option String × Ctx)} {c : Ctx} (h : dropName o = .ok c) :
     ∃ n, o = .ok (n, c) := by
   cases o with
@@ -159,23 +104,15 @@ theorem dropName_ok {o : Outcome (Option String × Ctx)} {c : Ctx} (h : dropName
 /-! ## the invariant -/
 
 structure Sound (g : Drg) (gr : Graph) (dp : Deps) : Prop where
-  dec : ∀ id c1 c2 out, AgreeOn (dp.decision id) c1 c2 → gr.decision id c1 out = gr.decision id c2 out
+  dec : ∀ id c1 c2 sup out, AgreeOn (dp.decision id) c1 c2 →
+    gr.decision id c1 sup out = gr.decision id c2 sup out
   bkm : ∀ id c1 c2 out, AgreeOn (dp.bkm id) c1 c2 → gr.bkm id c1 out = gr.bkm id c2 out
   svc : ∀ id c1 c2 out, AgreeOn (dp.service id) c1 c2 → gr.service id c1 out = gr.service id c2 out
-  decKeys : ∀ id input out n out', gr.decision id input out = .ok (n, out') →
-    ∀ k ∈ Ctx.keys out', k ∈ Ctx.keys out ∨ k ∈ g.decisionVarNames [id]
-  svcKeys : ∀ id input out n out', gr.service id input out = .ok (n, out') →
-    ∀ k ∈ Ctx.keys out', k ∈ Ctx.keys out ∨ k ∈ g.serviceVarNames [id]
-  bkmKeys : ∀ id input out out', gr.bkm id input out = .ok out' →
-    ∀ k ∈ Ctx.keys out', k ∈ Ctx.keys out ∨ k ∈ dp.bkmOut id
 
 theorem sound_diverge (g : Drg) : Sound g divergeGraph Deps.bot where
-  dec := fun _ _ _ _ _ => rfl
+  dec := fun _ _ _ _ _ _ => rfl
   bkm := fun _ _ _ _ _ => rfl
   svc := fun _ _ _ _ _ => rfl
-  decKeys := fun _ _ _ _ _ h => by simp [divergeGraph] at h
-  svcKeys := fun _ _ _ _ _ h => by simp [divergeGraph] at h
-  bkmKeys := fun _ _ _ _ h => by simp [divergeGraph] at h
 
 section step
 variable {g : Drg} {gr : Graph} {dp : Deps} (hs : Sound g gr dp)
@@ -188,169 +125,51 @@ theorem callBkm_congr (id : String) (c1 c2 c : Ctx) (h : AgreeOn (dp.bkm id) c1 
   | none => rfl
   | some _ => exact hs.bkm id c1 c2 c h
 
-theorem callDecision_congr (id : String) (c1 c2 c : Ctx) (h : AgreeOn (dp.decision id) c1 c2) :
-    callDecision g gr id c1 c = callDecision g gr id c2 c := by
+theorem callDecision_congr (id : String) (c1 c2 sup c : Ctx) (h : AgreeOn (dp.decision id) c1 c2) :
+    callDecision g gr id c1 sup c = callDecision g gr id c2 sup c := by
   unfold callDecision
   cases g.findDecision id with
   | none => rfl
-  | some _ => exact hs.dec id c1 c2 c h
-
-theorem callService_congr (id : String) (c1 c2 c : Ctx) (h : AgreeOn (dp.service id) c1 c2) :
-    callService g gr id c1 c = callService g gr id c2 c := by
-  unfold callService
-  cases g.findService id with
-  | none => rfl
-  | some _ => exact hs.svc id c1 c2 c h
-
-theorem callBkm_keys (id : String) (input c c' : Ctx) (h : callBkm g gr id input c = .ok c') :
-    ∀ k ∈ Ctx.keys c', k ∈ Ctx.keys c ∨ k ∈ dp.bkmOut id := by
-  unfold callBkm at h
-  cases hf : g.findBkm id with
-  | none => rw [hf] at h; cases h; exact fun k hk => Or.inl hk
-  | some _ => rw [hf] at h; exact hs.bkmKeys id input c c' h
-
-theorem callDecision_keys (id : String) (input c : Ctx) (n : Option String) (c' : Ctx)
-    (h : callDecision g gr id input c = .ok (n, c')) :
-    ∀ k ∈ Ctx.keys c', k ∈ Ctx.keys c ∨ k ∈ g.decisionVarNames [id] := by
-  unfold callDecision at h
-  cases hf : g.findDecision id with
-  | none => rw [hf] at h; cases h; exact fun k hk => Or.inl hk
-  | some _ => rw [hf] at h; exact hs.decKeys id input c n c' h
-
-theorem callService_keys (id : String) (input c : Ctx) (n : Option String) (c' : Ctx)
-    (h : callService g gr id input c = .ok (n, c')) :
-    ∀ k ∈ Ctx.keys c', k ∈ Ctx.keys c ∨ k ∈ g.serviceVarNames [id] := by
-  unfold callService at h
-  cases hf : g.findService id with
-  | none => rw [hf] at h; cases h; exact fun k hk => Or.inl hk
-  | some _ => rw [hf] at h; exact hs.svcKeys id input c n c' h
+  | some _ => exact hs.dec id c1 c2 sup c h
 
 end step
 
-theorem decisionVarNames_flatMap (g : Drg) (ids : List String) (k : String)
-    (h : k ∈ ids.flatMap (fun id => g.decisionVarNames [id])) : k ∈ g.decisionVarNames ids := by
-  obtain ⟨id, hid, hk1⟩ := List.mem_flatMap.mp h
-  unfold decisionVarNames at hk1 ⊢
-  obtain ⟨x, hx, hk2⟩ := List.mem_filterMap.mp hk1
-  simp only [List.mem_singleton] at hx
-  subst hx
-  exact List.mem_filterMap.mpr ⟨x, hid, hk2⟩
-
-theorem serviceVarNames_flatMap (g : Drg) (ids : List String) (k : String)
-    (h : k ∈ ids.flatMap (fun id => g.serviceVarNames [id])) : k ∈ g.serviceVarNames ids := by
-  obtain ⟨id, hid, hk1⟩ := List.mem_flatMap.mp h
-  unfold serviceVarNames at hk1 ⊢
-  obtain ⟨x, hx, hk2⟩ := List.mem_filterMap.mp hk1
-  simp only [List.mem_singleton] at hx
-  subst hx
-  exact List.mem_filterMap.mpr ⟨x, hid, hk2⟩
-
 /-- The decision closure reads the input data only at the names `depsStep` lists. -/
 theorem decisionClosure_congr {g : Drg} {gr : Graph} {dp : Deps} (hs : Sound g gr dp) (env : Env)
-    (d : Decision) (c1 c2 out : Ctx)
+    (d : Decision) (c1 c2 sup out : Ctx)
     (h : AgreeOn (d.reqKnowledge.flatMap dp.bkm ++ d.reqDecisions.flatMap dp.decision ++
-      knowledgeNames g dp d ++ g.inputNames d.reqInputs) c1 c2) :
-    decisionClosure g env gr d c1 out = decisionClosure g env gr d c2 out := by
-  have hk : AgreeOn (d.reqKnowledge.flatMap dp.bkm) c1 c2 := h.left.left.left
-  have hd : AgreeOn (d.reqDecisions.flatMap dp.decision) c1 c2 := h.left.left.right
-  have hn : AgreeOn (knowledgeNames g dp d) c1 c2 := h.left.right
+      g.inputNames d.reqInputs) c1 c2) :
+    decisionClosure g env gr d c1 sup out = decisionClosure g env gr d c2 sup out := by
+  have hk : AgreeOn (d.reqKnowledge.flatMap dp.bkm) c1 c2 := h.left.left
+  have hd : AgreeOn (d.reqDecisions.flatMap dp.decision) c1 c2 := h.left.right
   have hi : AgreeOn (g.inputNames d.reqInputs) c1 c2 := h.right
   unfold decisionClosure
   have e1 : foldCtx (fun id c => callBkm g gr id c1 c) d.reqKnowledge [] =
       foldCtx (fun id c => callBkm g gr id c2 c) d.reqKnowledge [] :=
     foldCtx_congr _ _ _ _ (fun id hid c => callBkm_congr hs id c1 c2 c (hk.flatMap hid))
   rw [e1]
-  cases hk1 : foldCtx (fun id c => callBkm g gr id c2 c) d.reqKnowledge [] with
+  cases foldCtx (fun id c => callBkm g gr id c2 c) d.reqKnowledge [] with
   | panic p => rfl
   | diverge => rfl
   | ok k1 =>
     simp only []
-    have e2 : foldCtx (fun id c => dropName (callDecision g gr id c1 c)) d.reqDecisions
+    have e2 : foldCtx (fun id c => dropName (callDecision g gr id c1 sup c)) d.reqDecisions
           (g.serviceFns d.reqKnowledge k1) =
-        foldCtx (fun id c => dropName (callDecision g gr id c2 c)) d.reqDecisions
+        foldCtx (fun id c => dropName (callDecision g gr id c2 sup c)) d.reqDecisions
           (g.serviceFns d.reqKnowledge k1) :=
       foldCtx_congr _ _ _ _ (fun id hid c => by
-        simp only [callDecision_congr hs id c1 c2 c (hd.flatMap hid)])
-    rw [e2]
-    cases hk3 : foldCtx (fun id c => dropName (callDecision g gr id c2 c)) d.reqDecisions
-        (g.serviceFns d.reqKnowledge k1) with
-    | panic p => rfl
-    | diverge => rfl
-    | ok k3 =>
-      simp only []
-      -- the keys of `required_knowledge_ctx` are among `knowledgeNames`
-      have hkeys : ∀ k ∈ Ctx.keys k3, k ∈ knowledgeNames g dp d := by
-        intro k hk
-        have h3 := foldCtx_keys _ (fun id => g.decisionVarNames [id])
-          (fun id c c' hc => by
-            obtain ⟨n, hn⟩ := dropName_ok hc
-            exact callDecision_keys hs id c2 c n c' hn)
-          d.reqDecisions _ k3 hk3 k hk
-        unfold knowledgeNames
-        rcases h3 with h3 | h3
-        · rcases serviceFns_keys g d.reqKnowledge k1 k h3 with h2 | h2
-          · have h1 := foldCtx_keys _ dp.bkmOut
-              (fun id c c' hc => callBkm_keys hs id c2 c c' hc) d.reqKnowledge [] k1 hk1 k h2
-            rcases h1 with h1 | h1
-            · simp [Ctx.keys] at h1
-            · exact List.mem_append_left _ (List.mem_append_left _ h1)
-          · exact List.mem_append_left _ (List.mem_append_right _ h2)
-        · exact List.mem_append_right _ (decisionVarNames_flatMap g _ k h3)
-      rw [overwrite_congr k3 c1 c2 (fun k hk => hn k (hkeys k hk)),
-        typedInputs_congr g d.reqInputs c1 c2 [] hi]
-
-/-- The keys a knowledge model closure writes. -/
-theorem bkmClosure_keys {g : Drg} {gr : Graph} {dp : Deps} (hs : Sound g gr dp) (b : Bkm)
-    (input out out' : Ctx) (h : bkmClosure g gr b input out = .ok out') :
-    ∀ k ∈ Ctx.keys out', k ∈ Ctx.keys out ∨
-      k ∈ b.reqKnowledge.flatMap dp.bkmOut ++ g.serviceVarNames b.reqKnowledge ++ [b.var] := by
-  unfold bkmClosure at h
-  split at h
-  · rename_i out1 hfold
-    cases h
-    intro k hk
-    rcases keys_set hk with hk | hk
-    · exact Or.inr (List.mem_append_right _ (by simp [hk]))
-    · have := foldCtx_keys _ (fun id => dp.bkmOut id ++ g.serviceVarNames [id])
-        (fun id c c' hc => by
-          intro k hk
-          unfold bkmRequirement at hc
-          cases h1 : callBkm g gr id input c with
-          | ok c1 =>
-            rw [h1] at hc
-            obtain ⟨n, hn⟩ := dropName_ok hc
-            rcases callService_keys hs id input c1 n c' hn k hk with h2 | h2
-            · rcases callBkm_keys hs id input c c1 h1 k h2 with h3 | h3
-              · exact Or.inl h3
-              · exact Or.inr (List.mem_append_left _ h3)
-            · exact Or.inr (List.mem_append_right _ h2)
-          | panic p => rw [h1] at hc; cases hc
-          | diverge => rw [h1] at hc; cases hc)
-        b.reqKnowledge out out1 hfold k hk
-      rcases this with h1 | h1
-      · exact Or.inl h1
-      · obtain ⟨id, hid, hk'⟩ := List.mem_flatMap.mp h1
-        rcases List.mem_append.mp hk' with h2 | h2
-        · exact Or.inr (List.mem_append_left _ (List.mem_append_left _ (List.mem_flatMap.mpr ⟨id, hid, h2⟩)))
-        · exact Or.inr (List.mem_append_left _ (List.mem_append_right _
-            (serviceVarNames_flatMap g _ k (List.mem_flatMap.mpr ⟨id, hid, h2⟩))))
-  · cases h
-  · cases h
+        simp only [callDecision_congr hs id c1 c2 sup c (hd.flatMap hid)])
+    rw [e2, typedInputs_congr g d.reqInputs c1 c2 [] hi]
 
 theorem bkmClosure_congr {g : Drg} {gr : Graph} {dp : Deps} (hs : Sound g gr dp) (b : Bkm)
-    (c1 c2 out : Ctx) (h : AgreeOn (b.reqKnowledge.flatMap (fun k => dp.bkm k ++ dp.service k)) c1 c2) :
+    (c1 c2 out : Ctx) (h : AgreeOn (b.reqKnowledge.flatMap dp.bkm) c1 c2) :
     bkmClosure g gr b c1 out = bkmClosure g gr b c2 out := by
   unfold bkmClosure
   have e : foldCtx (bkmRequirement g gr c1) b.reqKnowledge out =
       foldCtx (bkmRequirement g gr c2) b.reqKnowledge out :=
     foldCtx_congr _ _ _ _ (fun id hid c => by
-      have ha := h.flatMap hid
       unfold bkmRequirement
-      simp only [callBkm_congr hs id c1 c2 c ha.left]
-      cases callBkm g gr id c2 c with
-      | ok c1' => simp only [callService_congr hs id c1 c2 c1' ha.right]
-      | panic p => rfl
-      | diverge => rfl)
+      rw [callBkm_congr hs id c1 c2 c (h.flatMap hid)])
   rw [e]
 
 theorem outputLoop_congr (f f' : String → Ctx → Outcome (Option String × Ctx)) (ids names : List String)
@@ -358,11 +177,10 @@ theorem outputLoop_congr (f f' : String → Ctx → Outcome (Option String × Ct
   have : f = f' := funext (fun id => funext (fun c => h id c))
   rw [this]
 
-theorem serviceInputs_congr (g : Drg) (s : Service) (results c1 c2 : Ctx)
-    (hv : AgreeOn (g.decisionVarNames s.inputDecisions) c1 c2)
-    (hi : AgreeOn (g.inputNames s.inputData) c1 c2) :
-    g.serviceInputs s results c1 = g.serviceInputs s results c2 := by
-  unfold serviceInputs
+theorem serviceInputDecisions_congr (g : Drg) (s : Service) (results c1 c2 : Ctx)
+    (hv : AgreeOn (g.decisionVarNames s.inputDecisions) c1 c2) :
+    g.serviceInputDecisions s results c1 = g.serviceInputDecisions s results c2 := by
+  unfold serviceInputDecisions
   simp only []
   have e : ∀ (vars : List (String × VarTy)) (acc : Ctx), (∀ v ∈ vars, v.1 ∈ g.decisionVarNames s.inputDecisions) →
       vars.foldl (fun c v => Ctx.set c v.1 (v.2.check v.1 c1)) acc =
@@ -385,7 +203,14 @@ theorem serviceInputs_congr (g : Drg) (s : Service) (results c1 c2 : Ctx)
       simp [hf] at hd
       subst hd
       exact mem_decisionVarNames hid hf
-  rw [e _ _ hm, typedInputs_congr g s.inputData c1 c2 _ hi]
+  rw [e _ _ hm]
+
+theorem serviceInputs_congr (g : Drg) (s : Service) (results c1 c2 : Ctx)
+    (hv : AgreeOn (g.decisionVarNames s.inputDecisions) c1 c2)
+    (hi : AgreeOn (g.inputNames s.inputData) c1 c2) :
+    g.serviceInputs s results c1 = g.serviceInputs s results c2 := by
+  unfold serviceInputs
+  rw [serviceInputDecisions_congr g s results c1 c2 hv, typedInputs_congr g s.inputData c1 c2 _ hi]
 
 theorem serviceClosure_congr {g : Drg} {gr : Graph} {dp : Deps} (hs : Sound g gr dp) (s : Service)
     (c1 c2 out : Ctx)
@@ -393,43 +218,30 @@ theorem serviceClosure_congr {g : Drg} {gr : Graph} {dp : Deps} (hs : Sound g gr
       g.inputNames s.inputData) c1 c2) :
     serviceClosure g gr s c1 out = serviceClosure g gr s c2 out := by
   unfold serviceClosure
-  have e1 : foldCtx (fun id c => dropName (callDecision g gr id c1 c)) s.inputDecisions [] =
-      foldCtx (fun id c => dropName (callDecision g gr id c2 c)) s.inputDecisions [] :=
+  have e1 : foldCtx (fun id c => dropName (callDecision g gr id c1 [] c)) s.inputDecisions [] =
+      foldCtx (fun id c => dropName (callDecision g gr id c2 [] c)) s.inputDecisions [] :=
     foldCtx_congr _ _ _ _ (fun id hid c => by
-      simp only [callDecision_congr hs id c1 c2 c (h.left.left.flatMap hid)])
+      simp only [callDecision_congr hs id c1 c2 [] c (h.left.left.flatMap hid)])
   rw [e1]
-  cases foldCtx (fun id c => dropName (callDecision g gr id c2 c)) s.inputDecisions [] with
+  cases foldCtx (fun id c => dropName (callDecision g gr id c2 [] c)) s.inputDecisions [] with
   | panic p => rfl
   | diverge => rfl
   | ok results =>
     simp only []
-    rw [serviceInputs_congr g s results c1 c2 h.left.right h.right]
-
-theorem serviceResult_keys (ty : FType) (names : List String) (evaluated : Ctx) (var : String) (out : Ctx) :
-    ∀ k ∈ Ctx.keys (serviceResult ty names evaluated var out), k ∈ Ctx.keys out ∨ k = var := by
-  intro k hk
-  unfold serviceResult at hk
-  split at hk
-  · split at hk
-    · rcases keys_set hk with h | h
-      · exact Or.inr h
-      · exact Or.inl h
-    · exact Or.inl hk
-  · rcases keys_set hk with h | h
-    · exact Or.inr h
-    · exact Or.inl h
+    rw [serviceInputs_congr g s results c1 c2 h.left.right h.right,
+      serviceInputDecisions_congr g s results c1 c2 h.left.right]
 
 /-- One level of closures keeps the invariant. -/
 theorem sound_step {g : Drg} {gr : Graph} {dp : Deps} (hs : Sound g gr dp) (env : Env) :
     Sound g (graphStep g env gr) (depsStep g dp) where
   dec := by
-    intro id c1 c2 out h
+    intro id c1 c2 sup out h
     simp only [graphStep, depsStep] at h ⊢
     cases hf : g.findDecision id with
     | none => rfl
     | some d =>
       rw [hf] at h
-      exact decisionClosure_congr hs env d c1 c2 out h
+      exact decisionClosure_congr hs env d c1 c2 sup out h
   bkm := by
     intro id c1 c2 out h
     simp only [graphStep, depsStep] at h ⊢
@@ -446,56 +258,6 @@ theorem sound_step {g : Drg} {gr : Graph} {dp : Deps} (hs : Sound g gr dp) (env 
     | some s =>
       rw [hf] at h
       exact serviceClosure_congr hs s c1 c2 out h
-  decKeys := by
-    intro id input out n out' h k hk
-    simp only [graphStep] at h
-    cases hf : g.findDecision id with
-    | none => rw [hf] at h; cases h; exact Or.inl hk
-    | some d =>
-      rw [hf] at h
-      simp only [decisionClosure] at h
-      split at h
-      · split at h
-        · split at h
-          · cases h
-            rcases keys_set hk with hk | hk
-            · exact Or.inr (hk ▸ mem_decisionVarNames List.mem_cons_self hf)
-            · exact Or.inl hk
-          · cases h
-          · cases h
-        · cases h
-        · cases h
-      · cases h
-      · cases h
-  svcKeys := by
-    intro id input out n out' h k hk
-    simp only [graphStep] at h
-    cases hf : g.findService id with
-    | none => rw [hf] at h; cases h; exact Or.inl hk
-    | some s =>
-      rw [hf] at h
-      simp only [serviceClosure] at h
-      split at h
-      · split at h
-        · split at h
-          · cases h
-            rcases serviceResult_keys _ _ _ _ _ k hk with hk | hk
-            · exact Or.inl hk
-            · exact Or.inr (hk ▸ mem_serviceVarNames List.mem_cons_self hf)
-          · cases h
-          · cases h
-        · cases h
-        · cases h
-      · cases h
-      · cases h
-  bkmKeys := by
-    intro id input out out' h
-    simp only [graphStep, depsStep] at h ⊢
-    cases hf : g.findBkm id with
-    | none => rw [hf] at h; cases h; exact fun k hk => Or.inl hk
-    | some b =>
-      rw [hf] at h
-      exact bkmClosure_keys hs b input out out' h
 
 theorem sound_graphAt (g : Drg) (env : Env) (n : Nat) :
     Sound g (graphAt g env divergeGraph n) (depsAt g n) := by
